@@ -242,6 +242,8 @@ def classify(lang, err, w, declared_exports):
             else:
                 mc = "<not-in-world>" + module
             return "%s:unknown-import:%s:%s" % (lang, mc, _shape(field))
+        if field.startswith("cabi_post_["):
+            return "%s:unknown-export:cabi_post_%s" % (lang, re.match(r"((?:\[[^\]]*\])*)", field[len("cabi_post_"):]).group(1))
         return "%s:unknown-export:%s" % (lang, _shape(field))
     if k == "sig":
         return "%s:signature:%s:%s" % (lang, f[0], _shape(f[2]))
